@@ -458,8 +458,10 @@ func (s *segment) waitForData(waiter interface{}, pos int64) <-chan struct{} {
 		return wait
 	}
 	wait = make(chan struct{})
-	// Check if data has been written and/or the segment was filled.
-	if s.position > pos || s.position >= s.maxBytes {
+	// Check if data has been written and/or the segment was filled or sealed,
+	// e.g. because it was rolled due to its age, in which case it will not be
+	// written to anymore.
+	if s.position > pos || s.position >= s.maxBytes || s.sealed {
 		close(wait)
 	} else {
 		s.waiters[waiter] = wait
